@@ -16,7 +16,7 @@ func init() {
 		Spec: func(tier string) evid.Spec {
 			return evid.Spec{ID: "C18", Level: "model_checking", Exhaustive: true,
 				Rule: "the C10 configuration with every password and both shared secrets replaced by unique VERIF_SEED-derived tokens; a recording logger implementing the handlers' logger interface (Infof/Errorf/Debugf/Record/Set) at all levels; " +
-					"histories: depth <= 3 over the C10 core alphabet, depth 3 over the ASCII-login packets plus passwords containing a non-ASCII byte (which travel the decode-error paths), and depth 2 over the full alphabet (x 2 session ids), plus the full START product action{1,2,4} x type{1..6} x service{0,1,2} x minor{0,1} carrying a password token in data, alone and followed by a CONTINUE. " +
+					"histories: depth <= 3 over the C10 core alphabet, depth 3 over the ASCII-login packets plus passwords containing a non-ASCII byte (which travel the decode-error paths), and depth 2 over the full alphabet (x 2 session ids), plus the full START product action{1,2,4} x type{1..6} x service{0,1,2} x minor{0,1} x first sequence number{1,3,255} carrying a password token (right and, for PAP, wrong) in data, alone and followed by a CONTINUE. " +
 					"A token counts as a presented password when it travels in the data of a START whose authen_type is PAP or in the CONTINUE answering GETPASS (a token sent anywhere else, e.g. typed as a user name, is dropped from the watch list for that history). " +
 					"Oracle after every packet: no watched token and no shared secret occurs in any formatted message, in any Record value whose key the same call does not list as obscured, in any field selected by key in a Set (retention) call, " +
 					"or in any reply handed to a response logger. states = distinct session-stage states; transitions = packets delivered",
@@ -174,7 +174,13 @@ func c18Run(c *Ctx) {
 		for at := 1; at <= 6; at++ {
 			for _, svc := range []int{0, 1, 2} {
 				for minor := 0; minor <= 1; minor++ {
-					alpha1 = append(alpha1, rPkt{Kind: "start", Action: act, AType: at, Service: svc, Minor: minor, User: "own", Pw: e.Sec.Own})
+					// a first packet may carry any odd sequence number: 1, 3 and the last legal one
+					for _, sm := range []string{"", "jump", "255"} {
+						alpha1 = append(alpha1, rPkt{Kind: "start", Action: act, AType: at, Service: svc, Minor: minor, User: "own", Pw: e.Sec.Own, SeqMode: sm})
+						if at == 2 && sm != "" {
+							alpha1 = append(alpha1, rPkt{Kind: "start", Action: act, AType: at, Service: svc, Minor: minor, User: "own", Pw: e.Sec.Group2, SeqMode: sm}) // a wrong password
+						}
+					}
 				}
 			}
 		}
